@@ -141,7 +141,8 @@ def showUser (u : User) : String :=
 
 def showStore (s : Store) : String :=
   "users=" ++ ";".intercalate (sortStrs (s.users.map showUser)) ++
-  " tokens=" ++ ";".intercalate (sortStrs (s.tokens.map fun t => toHex t.1 ++ "~" ++ toHex t.2))
+  " tokens=" ++ ";".intercalate (sortStrs (s.tokens.map fun t =>
+    toHex t.1 ++ "~" ++ (if t.2.length == t.1.length + 1 then "?" else toHex t.2)))
 
 def showJar (j : Jar) : String :=
   ",".intercalate (sortStrs (j.map fun kv => kv.1.name ++ "=" ++ toHex kv.2))
